@@ -642,6 +642,10 @@ class SimulationParameters(JsonSerializable):
             len(self.parameters[i]) for i in self.unpacked_parameters
         ]
         aux = np.arange(0, self.get_num_unpacked_variations())
+        if not dimensions:
+            # No parameter is marked to be unpacked: there is a single
+            # combination and its index is 0.
+            return aux
         aux.shape = dimensions
         indexes = eval("aux" +
                        "[{0}]".format(",".join(param_indexes))).flatten()
